@@ -1,8 +1,8 @@
 package wire
 
 import (
-	"io"
 	"fmt"
+	"io"
 	"net"
 	"time"
 
@@ -87,7 +87,7 @@ type streamSide struct {
 	hungUp     *bool // set once this side has closed
 	peerHungUp *bool // set once the peer has closed: EOF is then the proper end
 	endReads   int
-	ending   *bool
+	ending     *bool
 }
 
 func (sd *streamSide) start(c *harness.Ctx, conn net.Conn, prop string) {
